@@ -342,6 +342,7 @@ unsigned long SSA::locate(uchar *pattern, uint m, size_t **occs) {
     while (i <= ep) {
       j = i;
       dist = 0;
+      c = 0; // (a separator found for a previous occurrence must be forgotten)
 
       while (!sampled->access(j)) {
         c = bwt->access(j, rank_tmp);
